@@ -13,6 +13,9 @@ Record case := mkcase {
   c_others : bool;               (* audience / topic / deny / scope checks are satisfiable *)
   c_pongs : bool;                (* the client answers pings *)
   c_data : list Z;               (* ns: when messages were delivered TO this client (data writes) *)
+  c_upongs : list Z;             (* ns: unsolicited pongs the client sent (one-way heartbeat) *)
+  c_cpings : list Z;             (* ns: pings the client sent *)
+  c_cclose : option Z;           (* ns: the client sent a close frame (and kept the TCP connection open) *)
   watch_until : Z;               (* ns: the socket was watched until then *)
   obs_accepted : bool;           (* membership observed (traffic relayed / listed in the status report) *)
   obs_closed : option Z }.       (* ns: server-side close observed at *)
@@ -30,17 +33,23 @@ Fixpoint insert_ev (x : ev * Z) (l : list (ev * Z)) : list (ev * Z) :=
   | y :: r => if snd x <? snd y then x :: l else y :: insert_ev x r
   end.
 
-Definition predicted_close (t f : Z) (pongs : bool) (data : list Z) (h : Z) : option Z :=
+Definition merge_in (e : ev) (times : list Z) (l : list (ev * Z)) : list (ev * Z) :=
+  fold_right (fun d acc => insert_ev (e, d) acc) l times.
+
+Definition predicted_close (t f : Z) (c : case) (h : Z) : option Z :=
   let n := rounds_until t h in
-  let rounds := if pongs then idle_rounds (t + ping_period) (repeat 0 n)
+  let rounds := if c_pongs c then idle_rounds (t + ping_period) (repeat 0 n)
                 else pings_only (t + ping_period) n in
-  let evs := fold_right (fun d acc => insert_ev (EDataOut, d) acc) rounds data in
+  let evs := merge_in EDataOut (c_data c)
+               (merge_in EPongUnsolicited (c_upongs c)
+                  (merge_in EClientPing (c_cpings c)
+                     (match c_cclose c with Some x => insert_ev (EClientClose, x) rounds | None => rounds end))) in
   closed_at (run (start t f) evs h).
 
 Definition close_ok (c : case) (f_lo f_hi : Z) : bool :=
   let h := watch_until c + late_tol in
-  let p_lo := predicted_close (t_lo c) f_lo (c_pongs c) (c_data c) h in
-  let p_hi := predicted_close (t_hi c) f_hi (c_pongs c) (c_data c) h in
+  let p_lo := predicted_close (t_lo c) f_lo c h in
+  let p_hi := predicted_close (t_hi c) f_hi c h in
   match obs_closed c, p_lo, p_hi with
   | Some o, Some a, Some b => (a - early_tol <=? o) && (o <=? b + late_tol)
   | Some o, _, _ => false                          (* closed although the model keeps it open *)
